@@ -2,24 +2,27 @@
 use crate::engine::{self, Ctx};
 
 pub mod c01;
+pub mod c02;
 pub mod c03;
 pub mod c04;
 pub mod c09;
+#[cfg(not(feature = "inproc"))]
+pub mod c12;
 pub mod c13;
 pub mod c14;
 pub mod c19;
 
 macro_rules! table {
-    ($($id:literal => $t:ty),* $(,)?) => {
+    ($($(#[$m:meta])* $id:literal => $t:ty),* $(,)?) => {
         pub fn dispatch_run(ctx: &Ctx) -> i32 {
             match ctx.prop.as_str() {
-                $($id => engine::run::<$t>(ctx),)*
+                $($(#[$m])* $id => engine::run::<$t>(ctx),)*
                 other => { eprintln!("property {} is not available in build {}", other, engine::BUILD); 3 }
             }
         }
         pub fn dispatch_replay(ctx: &Ctx, doc: &serde_json::Value, path: &str) -> i32 {
             match ctx.prop.as_str() {
-                $($id => engine::replay::<$t>(ctx, doc, path),)*
+                $($(#[$m])* $id => engine::replay::<$t>(ctx, doc, path),)*
                 other => { eprintln!("property {} is not available in build {}", other, engine::BUILD); 3 }
             }
         }
@@ -28,9 +31,12 @@ macro_rules! table {
 
 table! {
     "C01" => c01::C01,
+    "C02" => c02::C02,
     "C03" => c03::C03,
     "C04" => c04::C04,
     "C09" => c09::C09,
+    #[cfg(not(feature = "inproc"))]
+    "C12" => c12::C12,
     "C13" => c13::C13,
     "C14" => c14::C14,
     "C19" => c19::C19,
